@@ -1195,6 +1195,9 @@ type parkStore struct {
 	parked  chan struct{}
 	release chan struct{}
 	saved   chan struct{} // closed when the chain status of the next reorganisation has been written
+	// onCommit, when set, runs once at the start of the next SaveChainStatus, i.e. inside
+	// reorganizeChain just before the new chain state is written
+	onCommit func()
 }
 
 func (s *parkStore) arm(target bc.Hash, before bool) {
@@ -1206,6 +1209,13 @@ func (s *parkStore) arm(target bc.Hash, before bool) {
 
 // setState's write: what follows in reorganizeChain is the RemoveTransaction loop
 func (s *parkStore) SaveChainStatus(bh *types.BlockHeader, main []*types.BlockHeader, view *state.UtxoViewpoint, cv *state.ContractViewpoint, fh uint64, fhash *bc.Hash) error {
+	s.mu.Lock()
+	hook := s.onCommit
+	s.onCommit = nil
+	s.mu.Unlock()
+	if hook != nil {
+		hook()
+	}
 	err := s.Store.SaveChainStatus(bh, main, view, cv, fh, fhash)
 	s.mu.Lock()
 	if s.saved != nil {
@@ -1255,6 +1265,7 @@ type raceVariant struct {
 	two    bool // T has two inputs and the block carries a second transaction
 	child  bool // T spends an output of a pooled parent that the same block confirms
 	early  bool // release after a short random delay instead of waiting for the block
+	commit bool // no parking: T is submitted (and the submission given 300 ms to finish) at the moment the block's new chain state is about to be written
 }
 
 var raceVariants = []raceVariant{
@@ -1266,6 +1277,10 @@ var raceVariants = []raceVariant{
 	{name: "after-lookup-early-release", early: true},
 	{name: "before-lookup-reorg", before: true, reorg: true},
 	{name: "after-lookup-reorg-child", reorg: true, child: true},
+	{name: "during-commit", commit: true},
+	{name: "during-commit-pooled", commit: true, two: true},
+	{name: "during-commit-reorg", commit: true, reorg: true},
+	{name: "during-commit-child", commit: true, child: true},
 }
 
 func runRace(e *env, ps **parkStore, r *Rng, idx int, v raceVariant) (*CaseResult, error) {
@@ -1367,6 +1382,63 @@ func runRace(e *env, ps **parkStore, r *Rng, idx int, v raceVariant) (*CaseResul
 	spec.Ops = append(spec.Ops, OpSpec{K: "submit||block", T: tLabel, Parent: confirming.Parent.Label, Ts: confirming.Txs, Mode: v.name})
 
 	t := c.univ[tLabel-1]
+	if v.commit {
+		if v.two || (v.child && r.Bool()) {
+			// T is already pooled when the block arrives
+			if _, err := c.n.Chain.ValidateTx(t.Tx); err != nil {
+				return nil, fmt.Errorf("during-commit: pooling T first: %v", err)
+			}
+		}
+		subDone := make(chan error, 1)
+		store.mu.Lock()
+		store.onCommit = func() {
+			go func() {
+				_, err := c.n.Chain.ValidateTx(t.Tx)
+				subDone <- err
+			}()
+			select {
+			case err := <-subDone:
+				subDone <- err
+			case <-time.After(300 * time.Millisecond):
+			}
+		}
+		store.mu.Unlock()
+		orphan, err := c.n.Process(confirming.BI.Block)
+		if err != nil || orphan {
+			return nil, fmt.Errorf("during-commit: block confirming the transaction refused: orphan=%v err=%v", orphan, err)
+		}
+		store.mu.Lock()
+		fired := store.onCommit == nil
+		store.onCommit = nil
+		store.mu.Unlock()
+		if fired {
+			select {
+			case err := <-subDone:
+				if err != nil {
+					c.counts["overlap:submission-refused"]++
+				}
+			case <-time.After(30 * time.Second):
+				return nil, fmt.Errorf("during-commit: the submission did not return")
+			}
+			c.counts["overlap:submitted-during-commit"]++
+		} else {
+			c.counts["overlap:commit-hook-not-reached"]++
+		}
+		o, err := c.observe(step)
+		if err != nil {
+			return nil, err
+		}
+		step++
+		c.best = c.blocks[o.best]
+		if c.best != expectBest {
+			return nil, fmt.Errorf("during-commit: the delivery did not make block %d best", expectBest.Label)
+		}
+		if err := do(OpSpec{K: "block", Parent: expectBest.Label}); err != nil {
+			return nil, err
+		}
+		c.spec = spec
+		return &CaseResult{Idx: idx, Spec: spec, Counts: c.counts, Nontrivial: true, Fails: c.fails}, nil
+	}
 	store.arm(t.Tx.ID, v.before)
 	done1 := make(chan error, 1)
 	done2 := make(chan error, 1)
@@ -1644,7 +1716,7 @@ func runC23(c *Ctx) error {
 		seeds[i] = batches[i].Seed
 	}
 	// the overlap stage (submission of T while the block confirming T connects): one more child
-	race := RaceArgs{Seed: c.Rng.Next(), First: total + ncorpus, N: c.N(8, 48), Dir: filepath.Join(base, "race"), Tmpl: tmpl}
+	race := RaceArgs{Seed: c.Rng.Next(), First: total + ncorpus, N: c.N(2*len(raceVariants), 6*len(raceVariants)), Dir: filepath.Join(base, "race"), Tmpl: tmpl}
 	seeds[len(batches)] = race.Seed
 	sem := make(chan struct{}, jobs())
 	var wg sync.WaitGroup
